@@ -112,8 +112,9 @@ PROPS['C15'] = {
              'reader is modelled as well (Model/JsonRead.lean: white space, every escape of RFC 8259 with surrogate pairs, the number grammar, '
              'no trailing commas, nothing after the value, the 27-character rule for key identifiers, the URL-safe alphabet) and compared with '
              'SlurmFile::from_str on written (compact and pretty) and character-mutated texts; from_str_to_string: the reader model reads the '
-             'writer model\'s text of every well-formed file back as the file; readers_agree_on_written_text. Partial: the sequence form serde '
-             'derives for structs (a JSON array in place of an object) is accepted by the library and not by the model; such texts are not generated.',
+             'writer model\'s text of every well-formed file back as the file; readers_agree_on_written_text. The sequence form serde '
+             'derives for the seven derived structs (a JSON array of the fields in declaration order, none left out) is modelled too (tree model and '
+             'positional typing of the leaves) and generated. Partial: serde_json\'s recursion limit and the UTF-8 validity of the input are outside the model.',
     'note': 'The serde attribute semantics (default, skip_serializing_if, deny_unknown_fields - absent on BgpsecFilter -, null handling, '
             'duplicate fields, integer ranges) are mirrored by hand in Rpki/Model/Slurm.lean and validated differentially on valid and '
             'mutated files. Whether drop_payload consults all three lists, and ProviderAsns::MAX_COUNT, are regenerated from the source.',
@@ -126,7 +127,9 @@ PROPS['C15'] = {
             'character, quotes, backslashes, non-ASCII, U+2028) byte for byte against the model writer, and read back by the reference reader; '
             'every drop decision is also asked of the same filters in a version-1 file and in a file made by SlurmFile::new; jraw: ~250 hand-made texts '
             '(escapes, lone and paired surrogates, number forms, white space, trailing commas and material, deep nesting in ignored members) and three '
-            'character-level mutants of the compact and of the pretty text of every generated file through from_str and from_reader.',
+            'character-level mutants of the compact and of the pretty text of every generated file through from_str and from_reader; every generated file also '
+            'with some of its structs in sequence form (and one element short or long); apiaspa: files built through the API with 0..16381 ASPA providers '
+            'must come back from their own text.',
     'trusted_base': ['serde/serde_json derive semantics and serde_json\'s reader and writer mirrored by hand from RFC 8259 and the crate\'s behaviour (validated differentially on ~40 000 texts per run, not verified)'],
     'assumptions': ['for the tree comparison (json op) Base64 and IP prefix text are canonicalised by the harness; the jtext op compares octets'],
 }
@@ -218,8 +221,13 @@ PROPS['C03'] = {
              'into_prefix is sound and complete and to_prefixes tiles the range exactly with the fuel the caller uses. The RFC 3779 AS extension '
              'in DER is modelled (u32 INTEGER codec, id/range blocks, inherit): whatever decodes is inherit or the canonical chain of the union '
              'of the listed blocks, and what is encoded for a canonical set decodes to exactly it; encoder and decoder models are tied to the '
-             'library byte for byte (as-enc / as-der). Partial: text of IP addresses (std) and the IP half of the RFC 3779 DER reader (prefix bit '
-             'strings) are exercised through C01/C05, not modelled.',
+             'library byte for byte (as-enc / as-der); so is the IP half (Model/IpDer.lean: prefix bit strings, ranges, both families, IPv4 in the '
+             'upper 32 bits; ip-enc / ip-der). The text forms are modelled on octets (Model/ResText.lean: AS numbers and ranges, dotted quads, '
+             'RFC 5952 IPv6 with the IPv4-mapped form, prefix / range / single-address items; std\'s address parsers rendered and compared) with '
+             'the round trip as theorems for every canonical set (as_text_roundtrip, address_text_roundtrip, ip_text_set_roundtrip, '
+             'resset_text_roundtrip); ResourceSet union / intersection / difference / contains and RequestResourceLimit::apply_to are modelled '
+             'and specified (resset_*_spec, limit_apply_spec). Partial: std\'s address text and bcder\'s reader below Model/Der are modelled by '
+             'hand and compared, not verified.',
     'note': 'The post-pass merge condition and the saturation of asn_count are regenerated from the sources. One known finding: inverted '
             'IP ranges in *text* are still accepted (KNOWN_FINDINGS.txt).',
     'shards': {'quick': 8, 'thorough': 16},
